@@ -355,9 +355,35 @@ fn random_text(rng: &mut Rng, fmt: &str) -> String {
     s.replace("\\n", "\\ n")
 }
 
+/// A large archive built by rule (entry counts beyond 2^16): header + summary only travel to TLC (header totals
+/// against the rule's numbers); the comparison of the re-parsed value is done here.
+fn big_text_event(fmt: &str, endian: &str, n: usize) -> Value {
+    let (f, e) = fmt2(fmt, endian);
+    let r = catch(|| -> Result<Value, String> {
+        let mut a = TextArchive::new(f, e);
+        a.set_title("T".to_string());
+        for i in 0..n {
+            a.set_message(&format!("K{:06}", i), if i % 2 == 0 { "abc" } else { "abcdefg" });
+        }
+        let bytes = a.serialize().map_err(|x| format!("serialize: {}", x))?;
+        let b = TextArchive::from_bytes(&bytes, f, e).map_err(|x| format!("from_bytes: {}", x))?;
+        let equal = b.get_entries().len() == n
+            && b.get_entries().iter().zip(a.get_entries().iter()).all(|(x, y)| x == y)
+            && (fmt != "unicode" || b.get_title() == "T");
+        Ok(json!({"op": "bigtext", "fmt": fmt, "endian": endian, "n": n, "len": bytes.len(), "head": bytes[..32].to_vec(),
+                  "reparsed_equal": equal}))
+    });
+    match r {
+        Ok(Ok(v)) => v,
+        Ok(Err(why)) | Err(why) => json!({"op": "failed", "fmt": fmt, "endian": endian, "title": [], "entries": [], "why": why}),
+    }
+}
+
 fn format_record(out_path: &str, n: usize, max_entries: usize) {
     let mut rng = Rng::new(seed_from_env() ^ 0xC06);
     let mut out = NdWriter::create(out_path);
+    out.put(&big_text_event("unicode", "le", 70_000));
+    out.put(&big_text_event("sjis", "be", 65_537));
     for run in 0..n {
         let fmt = if run % 2 == 0 { "unicode" } else { "sjis" };
         let endian = if (run / 2) % 2 == 0 { "le" } else { "be" };
